@@ -13,6 +13,7 @@ import (
 	"os/exec"
 	"path/filepath"
 	"runtime"
+	"runtime/debug"
 	"runtime/pprof"
 	"sort"
 	"strconv"
@@ -199,6 +200,7 @@ func Main(spec *Spec) {
 	results := make([]*JobResult, len(jobs))
 	var mu sync.Mutex
 	next := 0
+	crashes := 0
 	var wg sync.WaitGroup
 	harnessErrs := []string{}
 	for wi := 0; wi < n; wi++ {
@@ -208,7 +210,7 @@ func Main(spec *Spec) {
 			var wp *workerProc
 			for {
 				mu.Lock()
-				if next >= len(order) {
+				if next >= len(order) || crashes >= 3 {
 					mu.Unlock()
 					break
 				}
@@ -235,6 +237,9 @@ func Main(spec *Spec) {
 					})
 					wp.kill()
 					wp = nil
+					mu.Lock()
+					crashes++ // after a few process deaths the remaining jobs are not started
+					mu.Unlock()
 				}
 				mu.Lock()
 				results[ji] = res
@@ -448,6 +453,7 @@ func runWorker(jobs []Job) {
 		_ = pprof.StartCPUProfile(f)
 		defer pprof.StopCPUProfile()
 	}
+	debug.SetMaxStack(64 << 20) // runaway recursion in the code under test fails fast
 	in := bufio.NewScanner(os.Stdin)
 	out := bufio.NewWriter(os.Stdout)
 	for in.Scan() {
